@@ -41,6 +41,10 @@ impl Lat {
                 let p = (nud(i as f32 / 2.0, dx), nud(j as f32 / 2.0, dy));
                 if !v.contains(&p) { v.push(p); }
             } } } },
+            // flat slivers far from the origin: heights of 2^-11 .. 2^-9 px around pixel-centre rows near y = 700 (relative height ~1e-6)
+            6 => { let h = 1.0f32 / 2048.0; for &y in &[700.5 - h, 700.5 + h, 700.5 - h / 2.0, 700.5 + 1.5 * h, 701.5 - h, 701.5 + 2.0 * h] { for &x in &[1000.0f32, 1001.5, 1003.0, 1004.5] { v.push((x, y)); } } },
+            // the same near the origin (rows 2.5 and 3.5) with heights of 2^-20 px
+            7 => { let h = 1.0f32 / 1048576.0; for &y in &[2.5 - h, 2.5 + h, 2.5 - h / 2.0, 2.5 + 1.5 * h, 3.5 - h, 3.5 + 2.0 * h] { for &x in &[0.0f32, 1.5, 3.0, 4.5] { v.push((x, y)); } } },
             _ => unreachable!(),
         }
         v
@@ -54,7 +58,7 @@ fn fill_cover(t: [(f32, f32); 3]) -> Result<Vec<Sl>, String> {
     let vs = t.map(|(x, y)| vertex(pt3(x, y, 1.0), ()));
     let mut out = vec![];
     // (a span wider than 2^16 pixels is far outside every triangle enumerated here: recorded without walking it)
-    caught(|| tri_fill(vs, |mut sl| { let wild = sl.xs.end.saturating_sub(sl.xs.start) > 1 << 16; let n = if wild { sl.xs.end - sl.xs.start } else { sl.fragments().count() }; out.push(Sl { y: sl.y, x0: sl.xs.start, x1: sl.xs.end, nfrag: n }); }))?;
+    caught(|| tri_fill(vs, |mut sl| { let wild = sl.xs.end.saturating_sub(sl.xs.start) > 1 << 16; let n = if wild { sl.xs.end - sl.xs.start } else { let cap = sl.xs.end.saturating_sub(sl.xs.start) + 2; sl.fragments().take(cap).count() }; out.push(Sl { y: sl.y, x0: sl.xs.start, x1: sl.xs.end, nfrag: n }); }))?;
     Ok(out)
 }
 
@@ -133,7 +137,9 @@ fn check_interp<A: Attr>(t: [(f32, f32); 3], zi: usize, r: &mut Report, fam: &st
     let verts: [_; 3] = std::array::from_fn(|k| vertex(pt3(t[k].0, t[k].1, zs[k]), A::make(&v[k])));
     let mut frags: Vec<(usize, usize, [f32; 3], Vec<f64>)> = vec![];
     let mut wild = None;
-    let res = caught(|| tri_fill(verts, |mut sl| { let (y, x0) = (sl.y, sl.xs.start); if sl.xs.end.saturating_sub(x0) > 1 << 16 { wild = Some((y, x0, sl.xs.end)); return; } for (i, f) in sl.fragments().enumerate() { frags.push((x0 + i, y, f.pos.0, f.var.comps())); } }));
+    let mut count_bad: Option<(usize, usize, usize, usize)> = None;
+    let res = caught(|| tri_fill(verts, |mut sl| { let (y, x0) = (sl.y, sl.xs.start); if sl.xs.end.saturating_sub(x0) > 1 << 16 { wild = Some((y, x0, sl.xs.end)); return; } let cap = sl.xs.end.saturating_sub(x0) + 2; let mut nf = 0; for (i, f) in sl.fragments().take(cap).enumerate() { nf += 1; frags.push((x0 + i, y, f.pos.0, f.var.comps())); } if nf != cap - 2 { count_bad = Some((y, x0, sl.xs.end, nf)); } }));
+    if let Some((y, a, b, nf)) = count_bad { r.violation(key("frag-position"), format!("scanline y={y} reports xs={a}..{b} but yields {}{nf} fragments", if nf > b.saturating_sub(a) { "at least " } else { "" }), case()); return; }
     if let Some((y, a, b)) = wild { r.violation(key("frag-position"), format!("scanline y={y} spans x={a}..{b}, far outside the triangle"), case()); return; }
     if let Err(p) = res { r.violation(key("fill-panic"), format!("tri_fill panicked: {p}"), case()); return; }
     // exact geometry in f64 (inputs are exactly representable)
@@ -182,6 +188,47 @@ fn check_interp<A: Attr>(t: [(f32, f32); 3], zi: usize, r: &mut Report, fam: &st
     r.nontrivial();
 }
 
+/// Slivers with one exactly vertical edge through a column of pixel centres: wherever a fragment is produced on that
+/// column its values are those of the plane at the centre, i.e. the linear interpolation ALONG the vertical edge -
+/// well defined however thin the sliver is (the general value check exempts slivers because the plane is ill-conditioned
+/// elsewhere).
+fn check_vertical_sliver(i: u64, r: &mut Report) {
+    r.eval();
+    let x0 = [0.5f32, 3.5, 12.5][(i % 3) as usize];
+    let w = [1.0f32 / 1048576.0, 1.0 / 16777216.0, 3.0e-7, 1.0e-6, 1.0 / 4096.0][(i / 3 % 5) as usize];
+    // (only slivers whose vertical edge is the LEFT one: interpolation along a scanline starts there, so nothing is
+    // extrapolated across the tiny width; for the mirrored shape f32 cancellation in the span width makes errors of a few
+    // percent unavoidable, which is why slivers are exempt from the general value check)
+    if i / 15 % 2 == 1 { return; }
+    let (y0, y1) = ([0.0f32, 0.25, 1.0][(i / 30 % 3) as usize], [3.0f32, 4.75, 7.5][(i / 90 % 3) as usize]);
+    let ym = y0 + (y1 - y0) * [0.5f32, 0.3, 0.9][(i / 270 % 3) as usize];
+    let zi = (i / 810 % 27) as usize;
+    let zs = [ZS[zi % 3], ZS[zi / 3 % 3], ZS[zi / 9 % 3]];
+    let a = [0.0f32, 1.0, 0.25];
+    let order = (i / 21870 % 3) as usize; // rotate the vertex order
+    let base = [(x0, y0, zs[0], a[0]), (x0, y1, zs[1], a[1]), (x0 + w, ym, zs[2], a[2])];
+    let vs: [(f32, f32, f32, f32); 3] = std::array::from_fn(|k| base[(k + order) % 3]);
+    let verts: [_; 3] = std::array::from_fn(|k| vertex(pt3(vs[k].0, vs[k].1, vs[k].2), vs[k].3 * vs[k].2));
+    let case = || obj! {"kind" => "vsliver", "i" => i};
+    let key = |cl: &str| format!("{cl}|vertical-edge sliver|x0={x0}|w={w:e}|y={y0}..{y1}|ym={ym}|z={zs:?}|order{order}");
+    let mut frags: Vec<(usize, usize, [f32; 3], f32)> = vec![];
+    let res = caught(|| tri_fill(verts, |mut sl| { let (y, xs) = (sl.y, sl.xs.clone()); let cap = xs.end.saturating_sub(xs.start) + 2; for (k, f) in sl.fragments().take(cap).enumerate() { frags.push((xs.start + k, y, f.pos.0, f.var)); } }));
+    if let Err(p) = res { r.violation(key("fill-panic"), format!("tri_fill panicked: {p}"), case()); return; }
+    for (x, y, pos, var) in &frags {
+        if pos.iter().any(|c| !c.is_finite()) || !var.is_finite() { r.violation(key("nan"), format!("fragment ({x},{y}) has non-finite pos {pos:?} / var {var}"), case()); return; }
+        if *x as f32 + 0.5 != x0 { continue; } // only the column of the vertical edge is judged
+        let t = ((*y as f64 + 0.5) - y0 as f64) / (y1 as f64 - y0 as f64);
+        if !(0.0..=1.0).contains(&t) { continue; }
+        let (z0, z1) = (zs[0] as f64, zs[1] as f64);
+        let zp = z0 + (z1 - z0) * t;
+        let vp = a[0] as f64 * z0 + (a[1] as f64 * z1 - a[0] as f64 * z0) * t;
+        let (zmin, zmax) = (zs.iter().cloned().fold(f32::MAX, f32::min) as f64, zs.iter().cloned().fold(f32::MIN, f32::max) as f64);
+        if (pos[2] as f64 - zp).abs() > 0.005 * (zmax - zmin) + 1e-5 * zmax { r.violation(key("depth"), format!("pixel ({x},{y}) on the vertical edge: depth {} but the edge interpolates to {zp}", pos[2]), case()); return; }
+        if (*var as f64 - vp / zp).abs() > 0.005 + 1e-5 { r.violation(key("attr"), format!("pixel ({x},{y}) on the vertical edge: var {var} but the edge interpolates to {}", vp / zp), case()); return; }
+        r.nontrivial();
+    }
+}
+
 fn tri_of(pts: &[(f32, f32)], i: u64, off: usize, per_vertex: bool) -> [(f32, f32); 3] {
     let n = pts.len() as u64;
     let idx = [(i % n) as usize, (i / n % n) as usize, (i / n / n) as usize];
@@ -200,6 +247,8 @@ fn families(quick: bool) -> Vec<(String, Vec<(f32, f32)>, usize, bool)> {
     f.push((format!("half-px N=3 +57"), Lat { kind: 2, n: 3 }.points(), 0, false));
     f.push((format!("half-px N=3 +1000/+700"), Lat { kind: 4, n: 3 }.points(), 0, false));
     f.push((format!("half-px N=3 +1000/+700 offset 0.1"), Lat { kind: 4, n: 3 }.points(), 2, false));
+    f.push(("flat slivers 2^-11 px high at y=700".into(), Lat { kind: 6, n: 0 }.points(), 0, false));
+    f.push(("flat slivers 2^-20 px high at y=2.5".into(), Lat { kind: 7, n: 0 }.points(), 0, false));
     f.push(("large triangles on {0,37.25,160.5,321}^2".into(), Lat { kind: 5, n: 0 }.points(), 0, false));
     f.push(("large triangles on {0,37.25,160.5,321}^2 offset 1/3".into(), Lat { kind: 5, n: 0 }.points(), 1, false));
     f.push((format!("half-px N={} nudged by -2..+1 ulp", if quick { 1 } else { 2 }), Lat { kind: 3, n: if quick { 1 } else { 2 } }.points(), 0, false));
@@ -225,6 +274,7 @@ fn main() {
     let cfg = Cfg::from_args(|s| if s == "cover" { "C04".into() } else { "C05".into() });
     if cfg.replay.is_some() {
         replay_main(&cfg, |c, r| {
+            if c.get("kind").and_then(|j| j.as_str()) == Some("vsliver") { check_vertical_sliver(c.get("i").unwrap().as_u64().unwrap(), r); return; }
             let t = parse_t(c);
             let fam = c.get("fam").and_then(|j| j.as_str()).unwrap_or("replay").to_string();
             if c.get("kind").and_then(|j| j.as_str()) == Some("cover") { check_cover(t, r, &fam); }
@@ -266,13 +316,14 @@ fn main() {
     }
     rep.sample(0, || obj! {"family" => fams[0].0.clone(), "triangle" => vec![0.0f32, 0.0, 4.0, 0.0, 2.0, 1.0]});
     rep.sample(1, || obj! {"family" => fams[2].0.clone(), "triangle_vertex_example" => vec![1.6f32, 2.325]});
+    if !is_cover { rep.merge(par_range(&cfg, 21870 * 3, check_vertical_sliver)); }
     if is_cover {
         rep.finish(&cfg, "exploration",
-            "every ordered vertex triple of: the half-pixel lattice 0..N px, the same lattice with all vertices (or each vertex independently) shifted by 1/3, 0.1, 2^-10, 0.499 px (non-dyadic slopes), a copy translated by +57 px, and (thorough) the quarter-pixel lattice. Oracle: exact i128 edge functions on the exactly representable f32 inputs; centres within 0.001 px of an edge are exempt. Per triangle: covered set == inside set off the band, scanlines strictly increasing in y, no pixel twice, |xs| == number of fragments. All six vertex orders are separate cases. non-trivial = >=1 strictly inside centre.",
+            "every ordered vertex triple of: the half-pixel lattice 0..N px, the same lattice with all vertices (or each vertex independently) shifted by 1/3, 0.1, 2^-10, 0.499 px (non-dyadic slopes), a copy translated by +57 px, flat slivers 2^-11 px high at y = 700 and 2^-20 px high at y = 2.5 around pixel-centre rows, and (thorough) the quarter-pixel lattice. Oracle: exact i128 edge functions on the exactly representable f32 inputs; centres within 0.001 px of an edge are exempt. Per triangle: covered set == inside set off the band, scanlines strictly increasing in y, no pixel twice, |xs| == number of fragments. All six vertex orders are separate cases. non-trivial = >=1 strictly inside centre.",
             &["screen coordinates in [0, 64] (negative pixel coordinates are outside tri_fill's usize domain)", "z = 1, attribute ()"]);
     } else {
         rep.finish(&cfg, "exploration",
-            "triangles as for C04 (thinned in the quick tier) x all 27 reciprocal-depth assignments over {1, 0.5, 0.1} (w ratio up to 10:1), also with all three scaled by 2^-24 and 2^10 (f32 attribute; other types on a subset), x attribute types f32, (f32,Vec2) and, on a stated subset, Vec2, Vec3, Color3f, Color4f, Point2, Point3, Angle with distinct non-constant vertex values handed over pre-divided (a*z). Oracle: f64 barycentric planes through the vertex depths and values at the pixel centre; var = value plane / depth plane; tolerance 0.5% of the vertex range; every fragment finite for area > 1e-6 (triangles with minimum altitude < 0.05 px are judged for finiteness and position only); reported position within 1e-3 px of the pixel centre. non-trivial = triangle with >= 1 fragment fully judged.",
+            "triangles as for C04 (thinned in the quick tier) x all 27 reciprocal-depth assignments over {1, 0.5, 0.1} (w ratio up to 10:1), also with all three scaled by 2^-24 and 2^10 (f32 attribute; other types on a subset), x attribute types f32, (f32,Vec2) and, on a stated subset, Vec2, Vec3, Color3f, Color4f, Point2, Point3, Angle with distinct non-constant vertex values handed over pre-divided (a*z). Oracle: f64 barycentric planes through the vertex depths and values at the pixel centre; var = value plane / depth plane; tolerance 0.5% of the vertex range; every fragment finite for area > 1e-6 (triangles with minimum altitude < 0.05 px are judged for finiteness and position only); reported position within 1e-3 px of the pixel centre; plus slivers 2^-24 .. 2^-12 px wide with an exactly vertical edge through a column of pixel centres, whose fragments on that column must carry the values interpolated along the edge. non-trivial = triangle with >= 1 fragment fully judged.",
             &["coordinates in [0, 64]", "tolerance 0.005*range + 1e-5*max|value|"]);
     }
 }
